@@ -236,7 +236,7 @@ func body(sp *spec) func(c *vsched.Ctx) {
 				probes[p.String()] = true
 			}
 		}
-		for p := range probes {
+		for _, p := range keys(probes) { // sorted: the harness must not add nondeterminism of its own
 			want := false
 			for r := range final {
 				if covers(r, p) {
